@@ -975,6 +975,6 @@ MANIFEST = dict(
     level_note="Trusted: python ast; torch.rand_like in [0,1); broadcasting semantics. F16 (replicate pad larger than the "
                "time dimension raised RuntimeError) was found by G23 and repaired; F20 (RandomShift rejected the documented pair of "
                "proportions: handler caught TypeError, helper raises ValueError) by G25 and repaired.",
-    technique="static analysis: index-range extent/cover analysis with guard dominance, min/max-linear term extraction compared with the specification over a finite grid, handler/raiser type agreement, literal-table agreement, argument binding, eval-path identity; interpretation of pad_variable / chunk_by_slices over exact tensor values (syntax tree only) compared with per-sequence padding on a finite grid",
+    technique="static analysis: index-range extent/cover analysis with guard dominance, min/max-linear term extraction compared with the specification over a finite grid, handler/raiser type agreement, literal-table agreement, argument binding, eval-path identity; interpretation of pad_variable / chunk_by_slices over exact tensor values (syntax tree only) compared with per-sequence padding on a finite grid; pad_masked_sequence interpreted over exact values for broadcasting masks",
     design_ref="DESIGN.md section 4 C09, section 3 G23",
 )
